@@ -137,11 +137,12 @@ Definition np_store (kd : kind) (v : pyv) : res val :=
 (* MixedColumn: for i, val in enumerate(col): if old == val: col[i] = new *)
 Definition pass_mixed (old new : pyv) (cs : list val) : res (list val) :=
   map_res (fun c => if k_replace_hit old (pyv_of_val c) then store_cell KMixed new else Ok c) cs.
-(* numeric: b = isnan(seq) if isnan(old) else seq == old ; seq[where(b)] = new *)
+(* numeric: if isinstance(old, float) and old != old: b = isnan(seq) else: b = seq == old ; seq[where(b)] = new.
+   A key that is no number is compared like any other (nothing equals it): no exception. *)
 Definition pass_numeric (kd : kind) (old new : pyv) (cs : list val) : res (list val) :=
-  if negb (is_number old) then Raise TypeError else
   bind (np_store kd new) (fun x =>
-    Ok (map (fun c => if k_replace_mask (pyv_is_nan old) (is_nan_val c) (py_eq old (pyv_of_val c)) then x else c) cs)).
+    Ok (map (fun c => if k_replace_mask (k_replace_nan_key (is_float old) (pyv_is_nan old))
+                                        (is_nan_val c) (py_eq old (pyv_of_val c)) then x else c) cs)).
 Definition pass (kd : kind) (old new : pyv) (cs : list val) : res (list val) :=
   match kd with KMixed => pass_mixed old new cs | _ => pass_numeric kd old new cs end.
 Fixpoint replace_model (kd : kind) (m : list (pyv * pyv)) (cs : list val) : res (list val) :=
